@@ -285,9 +285,12 @@ def run(case):
             # entry i is a different object in the two tables although the cells repeat the same numbers
             i = case["which"] % k
             col = np.arange(L, dtype=np.int64) * 10 + 7
-            if case["variant"] == "nx1-vs-n":
+            variant_ = case["variant"]
+            if variant_ == "1d-vs-2d" and L > 2000:
+                variant_ = "nx1-vs-n"           # (an L x L matrix of a forced large size does not fit in memory)
+            if variant_ == "nx1-vs-n":
                 mine, theirs = col[:, None], col.copy()                     # (L, 1) against (L,): the same numbers, entries of another shape
-            elif case["variant"] == "1d-vs-2d":
+            elif variant_ == "1d-vs-2d":
                 mine, theirs = col, np.tile(col, (L, 1))                    # (L,) against (L, L) whose rows repeat it
             else:
                 mine, theirs = col[:, None], np.repeat(col[:, None], case["width"], axis=1)   # (L, 1) against (L, w) with constant rows
